@@ -31,8 +31,10 @@ def main():
     global R
     if not a.in_repo:
         # scratch copy of /repo's working tree: sub-agents and background runs keep seeing the real tree
-        R = "/var/tmp/pdsh-seeded-repo"
-        sh("rm -rf %s && cp -a /repo %s" % (R, R))
+        # (a directory of its own per invocation: several invocations may run at the same time)
+        import tempfile
+        R = tempfile.mkdtemp(prefix="pdsh-seeded-repo-", dir="/var/tmp")
+        sh("rmdir %s && cp -a /repo %s" % (R, R))
         os.environ["VERIF_REPO"] = R
     sdir = os.path.join(V, "seeded")
     rows = []
